@@ -486,9 +486,23 @@ fn churn(ctx: &mut Ctx) {
 /// timing relative to the socket noticing the departure; the new connection must work in both
 /// directions and the old one must be released
 fn rejoin_same_identity(ctx: &mut Ctx) {
-    let kind = [Kind::Router, Kind::Dealer, Kind::Rep, Kind::Pull, Kind::Xpub, Kind::Sub][(ctx.idx % 6) as usize];
+    rejoin(ctx, 0)
+}
+/// The same histories judged for C06 (only: a message of the rejoined peer is available and recv
+/// completes) and for C10 (only: the rejoined peer is in the rotation of a round-robin sender).
+pub fn rejoin_heard(ctx: &mut Ctx) {
+    rejoin(ctx, 1)
+}
+pub fn rejoin_in_rotation(ctx: &mut Ctx) {
+    rejoin(ctx, 2)
+}
+fn rejoin(ctx: &mut Ctx, judge: u8) {
+    let kind = if judge == 2 { Kind::Dealer } else { [Kind::Router, Kind::Dealer, Kind::Rep, Kind::Pull, Kind::Xpub, Kind::Sub][(ctx.idx % 6) as usize] };
     let timing = (ctx.idx / 6) % 4; // when the second connection is opened
-    let how = (ctx.idx / 24) % 3; // how the first connection ends: orderly close, cut inside a message, reset
+    // how the first connection ends: orderly close, cut inside a message, reset - or not at all: it
+    // stays open and idle (a half-open connection, or a second client configured with the same
+    // identity), and the newcomer takes its place
+    let how = (ctx.idx / 24) % 4;
     world::swarm(ctx, SwarmOpts::default());
     let out: Rc<RefCell<(bool, Vec<(&'static str, String)>, Vec<Arc<rt::net::Conn>>)>> = Rc::new(RefCell::new((false, vec![], vec![])));
     let o2 = out.clone();
@@ -503,6 +517,7 @@ fn rejoin_same_identity(ctx: &mut Ctx) {
             m.extend(tagged(1, n, &[3]));
             m
         };
+        let kept_open: Rc<RefCell<Vec<RawPeer>>> = Rc::new(RefCell::new(Vec::new()));
         let mut p1 = RawPeer::connect(&ep).expect("connect");
         o2.borrow_mut().2.push(p1.conn.clone());
         let _ = p1.hello(peer_type, Some(b"same-id")).await;
@@ -525,9 +540,13 @@ fn rejoin_same_identity(ctx: &mut Ctx) {
                 rt::count("fault_cut_mid_message");
                 p1.close();
             }
-            _ => {
+            2 => {
                 p1.reset();
                 drop(p1);
+            }
+            _ => {
+                rt::count("probe_old_connection_left_open");
+                kept_open.borrow_mut().push(p1);
             }
         }
         // timing 1: right after the close, before the socket has been polled
@@ -584,7 +603,7 @@ fn rejoin_same_identity(ctx: &mut Ctx) {
             }
         }
         if !got {
-            o2.borrow_mut().1.push(("rejoined_peer_not_heard", format!("{} (first connection ended by {}, rejoin timing {timing}): a message on the new connection of the rejoined peer was not delivered", kind.name(), ["close", "cut inside a message", "reset"][how as usize])));
+            o2.borrow_mut().1.push(("rejoined_peer_not_heard", format!("{} (first connection ended by {}, rejoin timing {timing}): a message on the new connection of the rejoined peer was not delivered", kind.name(), ["close", "cut inside a message", "reset", "nothing (it stays open and idle)"][how as usize])));
         }
         // outbound to the new connection
         if kind.has_send() {
@@ -613,6 +632,7 @@ fn rejoin_same_identity(ctx: &mut Ctx) {
         world::park().await;
         drop(sock);
         drop(p2);
+        drop(kept_open);
     });
     let end = ctx.sim.run(600_000);
     if end == rt::RunEnd::Budget {
@@ -621,11 +641,16 @@ fn rejoin_same_identity(ctx: &mut Ctx) {
     ctx.check_panics();
     let o = out.borrow();
     for (c, d) in o.1.clone() {
+        if judge == 1 && c != "rejoined_peer_not_heard" || judge == 2 && c != "rejoined_peer_not_reachable" {
+            continue;
+        }
         ctx.violation(&format!("{c}:{}", kind.name()), d);
     }
-    if o.0 {
+    if o.0 && judge != 0 {
+        ctx.nontrivial();
+    } else if o.0 {
         if let Some(c) = o.2.first() {
-            if !c.released(1) {
+            if how != 3 && !c.released(1) {
                 ctx.violation(&format!("old_connection_not_released:{}", kind.name()), format!("{} (rejoin timing {timing}): the connection the peer closed is still held by the socket at quiescence", kind.name()));
             }
         }
@@ -638,7 +663,7 @@ fn rejoin_same_identity(ctx: &mut Ctx) {
     } else if end == rt::RunEnd::Quiescent && ctx.sim.rt.panics.borrow().is_empty() && o.1.is_empty() {
         ctx.violation("hang", format!("{} rejoin: the application never finished", kind.name()));
     }
-    ctx.out.extra_shape = ctx.idx % 72;
+    ctx.out.extra_shape = ctx.idx % 96;
     if ctx.want_sample {
         ctx.out.sample = Some(format!("{}: peer 'same-id' sends, leaves and rejoins under the same identity (timing {timing})", kind.name()));
     }
@@ -654,7 +679,7 @@ pub fn def() -> PropDef {
         strata: vec![
             Stratum { name: "cut_world", quick: space + 60_000, thorough: (space * 40) * 8, exhaustive: (false, false), run: cut_world, what: "victim cut at every offset x fault kind x socket type, bystanders alive" },
             Stratum { name: "cut_world_connect", quick: space / 2 + 20_000, thorough: (space * 10) * 8, exhaustive: (false, false), run: cut_world_connect, what: "the same grid with the victim at the far end of a connection opened by connect()" },
-            Stratum { name: "rejoin_same_identity", quick: 24_000, thorough: (400_000) * 8, exhaustive: (false, false), run: rejoin_same_identity, what: "departure (close / cut inside a message / reset) and rejoin under the same announced identity at four timings" },
+            Stratum { name: "rejoin_same_identity", quick: 24_000, thorough: (400_000) * 8, exhaustive: (false, false), run: rejoin_same_identity, what: "departure (close / cut inside a message / reset / none: the old connection stays open and idle) and rejoin under the same announced identity at four timings" },
             Stratum { name: "churn", quick: 18_000, thorough: (300_000) * 8, exhaustive: (false, false), run: churn, what: "repeated connect/disconnect cycles, retained connections" },
         ],
     }
